@@ -81,6 +81,26 @@ def run_fmt_stream(ctx, res):
                     res.violate("C11:multicast-format", "multicast reply with id %d flags %#x qd %d class %#x" % (wid, flags, qd, classes[0]), cases[-1])
                 if not multicast and (wid != ident or classes[0] >= 0x8000):
                     res.violate("C11:unicast-format", "unicast reply with id %d (query %d) class %#x" % (wid, ident, classes[0]), cases[-1])
+    # the two reply constructors themselves (ids on the boundary: a legacy resolver may well use id 0)
+    from zeroconf import DNSQuestion
+    from zeroconf._handlers.answers import construct_outgoing_multicast_answers, construct_outgoing_unicast_answers
+
+    q = DNSQuestion("s._a._tcp.local.", k._TYPE_ANY, k._CLASS_IN)
+    for unicast in (True, False):
+        for us in (True, False):
+            for ident in (0, 1, 2, 0x8000, 0xFFFE, 0xFFFF, 0x1234):
+                for r in recs:
+                    out = construct_outgoing_unicast_answers({r: set()}, us, [q], ident) if unicast else construct_outgoing_multicast_answers({r: set()})
+                    data = out.packets()[0]
+                    wid, flags, qd, classes, _m = raw_classes(data)
+                    lines.append("c11reply %s %s %d %d %s" % (C.b01(unicast), C.b01(us), ident, r.class_, C.b01(r.unique)))
+                    exp.append("%d %d %d" % (wid, flags, classes[0]))
+                    cases.append(dict(stream="fmt", constructor="unicast" if unicast else "multicast", multicast=not unicast, ucast_source=us, id=ident, rec=C.rec_line(r)))
+                    if unicast and (wid != ident or flags != 0x8400 or classes[0] >= 0x8000 or qd != (1 if us else 0)):
+                        res.violate("C11:unicast-format", "construct_outgoing_unicast_answers(id %d, ucast_source %s): id %d flags %#x questions %d class %#x" % (
+                            ident, us, wid, flags, qd, classes[0]), cases[-1])
+                    if not unicast and (wid != 0 or flags != 0x8400 or qd != 0 or (classes[0] >= 0x8000) != r.unique):
+                        res.violate("C11:multicast-format", "construct_outgoing_multicast_answers: id %d flags %#x qd %d class %#x" % (wid, flags, qd, classes[0]), cases[-1])
     model = None
     if ctx["driver_ok"]:
         try:
@@ -204,15 +224,42 @@ def run_scenario(seed, sc_no):
                 e = R.with_ttl(r, ttl)
                 e.created = float(now - age)
                 zc.cache.async_add_records([e])
-            qid = (qid + rng.randrange(1, 5000)) % 65536 or 1
             port = rng.choice([5353, 5353, 5353, 40000, 1, 65535, 5354])
+            # message ids: boundary-biased, above all for legacy sources (one-shot resolvers do send id 0)
+            qid = (qid + rng.randrange(1, 5000)) % 65536 or 1
+            if port != 5353:
+                qid = rng.choice([0, 0, 1, 0xFFFF, qid, qid])
+            elif rng.random() < 0.25:
+                qid = rng.choice([0, 0, 1, 0xFFFF])
             probe = rng.random() < 0.25
-            with_auth_only = False
+
+            def source(alt=False):
+                if rx_v6:
+                    return ("fe80::8" if alt else "fe80::9", port, 0, 3)
+                return (("10.0.0.7" if alt else rng.choice(["10.0.0.9", "10.0.0.8"])), port)
+
+            if rng.random() < 0.35:
+                # the same multi-question datagram twice within (or just outside) a second, from two sources, with the QU
+                # question in every position: each querier's QU question is owed its reply
+                nq = rng.choice([2, 2, 3, 4])
+                if rng.random() < 0.7:
+                    k = rng.randrange(nq)
+                    qus = [j == k for j in range(nq)]
+                else:
+                    qus = [rng.random() < 0.5 for _ in range(nq)]
+                pool = R.question_pool(infos)
+                questions = [rng.choice(pool[:len(pool) - 4]) for _ in range(nq)]
+                data, qs, qus = R.build_query(rng, infos, uni, qid, questions=questions, qus=qus, probe=probe and rng.random() < 0.3, known_p=0.05)
+                src = source()
+                box["queries"].append(dict(t=now, src=src[:2], data=data, id=qid, probe=probe))
+                rx_tr.protocol.datagram_received(data, src)
+                await sim.sleep_ms(rng.choice([0, 1, 300, 300, 999, 999, 1000, 1001]))
+                src2 = source(alt=rng.random() < 0.8)
+                box["queries"].append(dict(t=sim.loop.ms, src=src2[:2], data=data, id=qid, probe=probe, twin=True))
+                rx_tr.protocol.datagram_received(data, src2)
+                continue
             data, qs, qus = R.build_query(rng, infos, uni, qid, nq=rng.choice([1, 1, 2, 3, 4]), qu_p=0.5, probe=probe, known_p=0.15)
-            if rx_v6:
-                src = ("fe80::9", port, 0, 3)
-            else:
-                src = (rng.choice(["10.0.0.9", "10.0.0.8"]), port)
+            src = source()
             box["queries"].append(dict(t=now, src=src[:2], data=data, id=qid, probe=probe))
             rx_tr.protocol.datagram_received(data, src)
         await sim.sleep_ms(3000)
@@ -309,6 +356,23 @@ def check_trace_O(res, box, case):
         for key, os_ in groups.items():
             if len(os_) != nsocks or len({id(o["sock"]) for o in os_}) != nsocks:
                 res.violate("C11:multicast-sockets", "a multicast reply went out on %d of the host's %d sockets" % (len(os_), nsocks), dict(case, at_ms=b["t"] - T0))
+        # ---- every copy of a query with a QU question is owed its reply
+        if (b["kind"] == "rx" and b.get("parsed") and not b["asm"] and b["lis"] is box["lis"] and not (b["parsed"]["flags"] & 0x200)):
+            pkt = b["parsed"]
+            known = {}
+            if pkt["num_auth"] == 0:
+                for rid, ttl in pkt["known"]:
+                    known.setdefault(rid, set()).add(ttl)
+            owed = sorted({rid for qu, cands in pkt["items"] if qu for (rid, ttl, _a, sup) in cands
+                           if not (sup and known.get(rid) and all(kt * 2 > ttl for kt in known[rid]))})
+            if owed and not b["outs"]:
+                res.violate("C11:qu-question-unanswered",
+                            "a query from %s:%d with a QU question (QU/QM pattern %s) was not handled at all: %s get neither a unicast nor a multicast reply "
+                            "(an identical datagram had arrived %s ms earlier; RFC 6762 5.4 owes every QU question its reply)" % (
+                                b["src"][0], b["src"][1], "".join("U" if q[3] else "M" for q in pkt["questions"]),
+                                [uni.describe(i) for i in owed],
+                                next((b["t"] - x["t"] for x in reversed(tr.blocks[:bi]) if x["kind"] == "rx" and x["data"] == b["data"]), "?")),
+                            dict(case, at_ms=b["t"] - T0))
         # ---- routing of an ordinary query
         if b["kind"] == "rx" and b["asm"] and b["asm"]["npkts"] == 1 and b.get("parsed"):
             pkt = b["parsed"]
